@@ -25,6 +25,8 @@ Section Proofs.
   Variable P : params (T:=R).
   Variables (x_in y_in Σ errz_in : list R).
   Variable ls_fuel : nat.
+  (* every lemma of this section is generalised over ALL the section variables, in the order above *)
+  Set Default Proof Using "All".
 
   Notation it := (iterate (T:=R)).
   Notation eprox := (eval_prox lb ub l1).
@@ -747,5 +749,14 @@ Section Proofs.
     exists cf, hd_error (rev (out_log o)) = Some (mkCb (out_iterations o) cf [] (- 1) (out_eps o) (out_status o)) /\ consistent cf.
   Proof.
     intros Hr. destruct (panoc_post fuel o Hr) as (cf & cnt & np & W). destruct W. repeat split; try assumption. exists cf. split; assumption.
+  Qed.
+
+  (* the invariant at EVERY stop check (completed iterations and interrupted line searches alike) *)
+  Theorem reachable_check s : reachable s ->
+    consistent (check_iterate s) /\ qub_ok (check_iterate s) /\ glrel0 (check_iterate s) /\
+    (need_gradh P = true -> ihave (check_iterate s) = true) /\ (st_k s <= p_max_iter P)%nat.
+  Proof.
+    intros Hr. pose proof (reachable_inv s Hr) as Hi. destruct (check_iterate_consistent s Hi) as (A & B & C & D).
+    repeat (split; [assumption|]). apply Hi.
   Qed.
 End Proofs.
